@@ -5,7 +5,7 @@ from .core import RuleResult, CheckFailure
 from .roles import named
 from .kernel import norm
 from .roles import (get_roles, HASHMAP_REMOVE, HASHMAP_INSERT, DASHMAP_REMOVE, DASHMAP_INSERT, HASHMAP_MUT, DASHMAP_MUT)
-from .symex import fmt, subterms, PathLimit
+from .symex import OCC_GET_MUT, VAC_INSERT, fmt, subterms, PathLimit
 from .rules_live import is_clock, has_call, has_field
 
 
@@ -109,7 +109,7 @@ def rule_must_invalidate(ctx):
                           'result on (key, value) unchanged (returns %s)' % fmt(ret)[:80], where=ctx.where(filt))
     paths = _run(ctx, nid, inline_depth=4)
     rem = [p for p in paths if any(e[0] == 'call' and e[1] == 'std::collections::HashMap::remove' and
-                                   any(isinstance(x, tuple) and x and x[0] == 'call' and str(x[1]).endswith('Iterator::filter') for x in subterms(e[2][1])) for e in p.events)]
+                                   any(isinstance(x, tuple) and x and (x[0] == 'iter_filter' or (x[0] == 'call' and str(x[1]).endswith('Iterator::filter'))) for x in subterms(e[2][1])) for e in p.events)]
     r.instance(function=nid, paths=len(paths), paths_removing_filtered_keys=len(rem))
     if not rem:
         r.violate(nid, 'filtered-keys-not-removed', 'HashMap::remove', 'invalidate_entries_if does not remove the keys selected by the predicate', where=ctx.where(nid))
@@ -133,26 +133,30 @@ def rule_must_insert(ctx):
                       'an older value of the key stays observable', where=ctx.where(nid), path=[fmt(c)[:70] + ' == ' + str(v) for c, v in p.conds][:6])
     if 'sync::cache::Cache::insert' in prog.bodies:
         nid = 'sync::cache::Cache::insert'
-        for p in _run(ctx, nid, inline_depth=4, inline_pred=lambda n, b, d: False if n.endswith('schedule_write_op') else None):
+        bb = prog.bodies[nid]
+        vparams = [i for i in range(1, bb.argc + 1) if bb.local_ty(i)['s'] == 'V'] or [3]
+
+        def from_value(t):
+            return any(isinstance(x, tuple) and x and x[0] == 'aggr' and 'ValueEntry' in str(x[1]) and
+                       any(y == ('param', vp) for vp in vparams for y in subterms(x)) for x in subterms(t))
+        for p in _run(ctx, nid, inline_depth=7, inline_pred=lambda n, b, d: False if n.endswith('schedule_write_op') else None):
+            if p.diverged:
+                continue
             names = [str(e[1]) for e in p.events if e[0] == 'call']
             has_entry = 'dashmap::DashMap::entry' in names
-            upd = [e for e in p.events if e[0] == 'call' and str(e[1]).endswith('Entry::and_modify')]
-            ins = [e for e in p.events if e[0] == 'call' and str(e[1]).endswith('Entry::or_insert_with')]
-            ok = has_entry and bool(upd) and bool(ins)
-            r.instance(function=nid, entry=has_entry, and_modify=bool(upd), or_insert_with=bool(ins))
-            if not ok:
-                r.violate(nid, 'no-map-write', 'DashMap::entry', 'a normal path of sync insert does not go through entry().and_modify().or_insert_with()',
-                          where=ctx.where(nid), path=[fmt(c)[:70] + ' == ' + str(v) for c, v in p.conds][:6])
-        # closures store the value
-        root = named(ctx, 'sync.do_insert')
-        for c in prog.closures_of.get(root, []):
-            for p in _run(ctx, c, inline_depth=4):
-                val_used = any(isinstance(x, tuple) and x and x[0] == 'call' and str(x[1]).endswith('ValueEntry::new') for ev in p.events for x in subterms(ev[2] if ev[0] == 'write' else ()) ) or \
-                    (p.ret is not None and any(isinstance(x, tuple) and x and x[0] == 'aggr' and 'ValueEntry' in str(x[1]) for x in subterms(p.ret))) or \
-                    any(ev[0] == 'write' and any(isinstance(x, tuple) and x and x[0] == 'aggr' and 'ValueEntry' in str(x[1]) for x in subterms(ev[2])) for ev in p.events)
-                r.instance(closure=c, stores_new_value_entry=val_used)
-                if not val_used:
-                    r.violate(c, 'closure-not-storing', 'ValueEntry', 'the map-write closure %s does not store a new ValueEntry' % c, where=ctx.where(c))
+            # the map slot of the key receives an entry built from this call's value: the occupied slot is overwritten (`*slot = ..`,
+            # and_modify), or the vacant one is filled (VacantEntry::insert, or_insert_with), or DashMap::insert is used
+            upd = [e for e in p.events if e[0] == 'write' and isinstance(e[1], tuple) and e[1][0] == 'call' and e[1][1] == OCC_GET_MUT]
+            ins = [e for e in p.events if e[0] == 'call' and e[1] in (VAC_INSERT, 'dashmap::DashMap::insert')]
+            stored = [e[2] for e in upd] + [e[2][-1] for e in ins if e[2]]
+            ok = (has_entry or any(e[1] == 'dashmap::DashMap::insert' for e in ins)) and bool(stored) and all(from_value(x) for x in stored)
+            r.instance(function=nid, entry=has_entry, occupied_slot_overwritten=bool(upd), vacant_slot_filled=bool(ins), stores_value_param=ok)
+            if not stored:
+                r.violate(nid, 'no-map-write', 'DashMap::entry', 'a normal path of sync insert does not store into the map slot of the key (neither the occupied slot is '
+                          'overwritten nor the vacant one filled)', where=ctx.where(nid), path=[fmt(c)[:70] + ' == ' + str(v) for c, v in p.conds][:6])
+            elif not ok:
+                r.violate(nid, 'closure-not-storing', 'ValueEntry', 'a path of sync insert stores something else than a new ValueEntry built from the inserted value '
+                          'into the map slot (%s)' % fmt(stored[0])[:80], where=ctx.where(nid), path=[fmt(c)[:70] + ' == ' + str(v) for c, v in p.conds][:6])
     r.require_floor(3, 'insert paths')
     return r
 
@@ -163,7 +167,7 @@ def rule_auth_value(ctx):
                    'maintenance, lookups and invalidation never (re-)insert')
     prog, eff = ctx.prog, ctx.eff
     R = get_roles(ctx)
-    sites = R.ext_sites(HASHMAP_INSERT | DASHMAP_INSERT | {'dashmap::DashMap::alter', 'dashmap::DashMap::get_mut', 'dashmap::mapref::entry::Entry::and_modify'})
+    sites = R.ext_sites(HASHMAP_INSERT | DASHMAP_MUT - DASHMAP_REMOVE - {'dashmap::DashMap::shrink_to_fit'})
     for nid, ext, line, bi in sites:
         root = prog.bodies[nid].root or nid
         pubs = sorted(pp for pp in prog.public_api() if root in prog.reachable_from([pp]) and not pp.endswith('::fmt'))
@@ -205,42 +209,33 @@ def rule_update_resets(ctx):
     r = RuleResult('MUST-update-resets', 'the update arm of insert stores the clock reading of this insert to BOTH the last-modified and the last-accessed '
                    'store of the entry on every path (when the entry has the corresponding timestamp), so an update restarts ttl and tti')
     prog = ctx.prog
-    # sync: closure passed to and_modify
+    # sync: the paths of the insert role on which the key's slot is occupied (and_modify closure / Occupied arm)
     root = named(ctx, 'sync.do_insert')
     n = 0
     if root in prog.bodies:
-        b = prog.bodies[root]
-        upd = None
-        for bi, t in b.calls():
-            _, ext, passed = prog.call_targets(b, t)
-            if ext and ext.endswith('Entry::and_modify') and passed:
-                upd = passed[0]
-        if upd is None:
-            raise CheckFailure('MUST-update-resets: and_modify closure not found')
-        # what the captured `ts` is in the parent: a clock reading of the insert call
-        for p in _run(ctx, upd, inline_depth=6):
+        nocc = 0
+        for p in _run(ctx, root, inline_depth=6):
+            if p.diverged:
+                continue
+            slotw = [e for e in p.events if e[0] == 'write' and isinstance(e[1], tuple) and e[1][0] == 'call' and e[1][1] == OCC_GET_MUT]
+            occupied = any(isinstance(c, tuple) and c[0] == 'discr' and v == 0 and isinstance(c[1], tuple) and c[1][0] == 'call' and
+                           str(c[1][1]).endswith('DashMap::entry') for c, v in p.conds)
+            if not (slotw or occupied):
+                continue
+            nocc += 1
             n += 1
             for store in ('last_modified', 'last_accessed'):
-                w = [e for e in p.events if e[0] == 'write' and has_field(e[1], (store,))]
-                ok = bool(w) and all(any(isinstance(x, tuple) and x and x[0] == 'fld' and x[1] == ('param', 1) for x in subterms(e[2])) for e in w)
-                r.instance(function=upd, store=store, written=bool(w), value=fmt(w[-1][2])[:60] if w else None, ok=ok)
+                w = [e for e in p.events if e[0] == 'write' and has_field(e[1], (store,)) and has_call(e[1], (OCC_GET_MUT,))]
+                ok = bool(w) and all(is_clock(e[2]) for e in w)
+                r.instance(function=root, store=store, written=bool(w), value=fmt(w[-1][2])[:60] if w else None, ok=ok)
                 if not w:
-                    r.violate(upd, 'update-does-not-reset', store, 'the update path of sync insert does not write EntryInfo.%s: the %s interval is not restarted by an update'
-                              % (store, 'ttl' if store == 'last_modified' else 'tti'), where=ctx.where(upd),
+                    r.violate(root, 'update-does-not-reset', store, 'the update path of sync insert does not write EntryInfo.%s: the %s interval is not restarted by an update'
+                              % (store, 'ttl' if store == 'last_modified' else 'tti'), where=ctx.where(root),
                               expected='set_last_modified(ts) and set_last_accessed(ts) on update')
                 elif not ok:
-                    r.violate(upd, 'update-reset-origin', store, 'the update path writes EntryInfo.%s with something else than the captured clock reading' % store, where=ctx.where(upd))
-        # the captured ts originates from a clock read in do_insert_with_hash
-        leaves = {}
-        for bi, si, s in b.stmts():
-            if s['st'] == 'assign' and s['rv']['rv'] == 'aggr' and s['rv'].get('kind') == 'closure' and norm(s['rv']['closure']) == upd:
-                for name, o in zip(s['rv'].get('fields', []), s['rv']['ops']):
-                    if name == 'ts':
-                        leaves = ctx.orig.of_operand(b, o)
-        clock = any(l[0] in ('call', 'via') and ('current_time_from_expiration_clock' in str(l[1]) or str(l[1]).endswith('Instant::now')) for l in leaves)
-        r.instance(function=root, captured_ts_is_clock_read=clock)
-        if not clock:
-            r.violate(root, 'update-ts-origin', 'ts', 'the timestamp captured by the update closure is not a clock reading taken in this insert', where=ctx.where(root))
+                    r.violate(root, 'update-reset-origin', store, 'the update path writes EntryInfo.%s with something else than the clock reading of this insert' % store, where=ctx.where(root))
+        if nocc == 0:
+            raise CheckFailure('MUST-update-resets: no path of %s updates an occupied map slot (update arm not found)' % root)
     # unsync: update role = handle_update
     nid = named(ctx, 'unsync.update_handler')
     for p in _run(ctx, nid, inline_depth=5):
